@@ -4,4 +4,5 @@ namespace SleapVerif.Arch
 theorem tableUnet_64_r1 : tableUnet 64 ⟨1, 1⟩ = true := by decide +kernel
 theorem tableUnet_64_r32 : tableUnet 64 ⟨3, 2⟩ = true := by decide +kernel
 theorem tableUnet_64_r2 : tableUnet 64 ⟨2, 1⟩ = true := by decide +kernel
+theorem tableUnetCpb1_64 : tableUnetCpb1 64 = true := by decide +kernel
 end SleapVerif.Arch
